@@ -252,6 +252,14 @@ func isCanonicalBlockRef(header *protocol.BlockRef) bool {
 	return bytes.Equal(canonical, header.Raw())
 }
 
+// A NEW_VIEW carries the votes it rests on encoded again from their fields (ExtractConfirmationsFromViewChangeMessages),
+// next to the signatures those votes came with. A vote whose signed header is not the canonical encoding of its fields
+// would not verify there, and peers would reject the whole NEW_VIEW, so such a vote is not counted.
+func isCanonicalViewChange(vcm *interfaces.ViewChangeMessage) bool {
+	reencoded := interfaces.ExtractConfirmationsFromViewChangeMessages([]*interfaces.ViewChangeMessage{vcm})
+	return bytes.Equal(reencoded[0].SignedHeader.Build().Raw(), vcm.Content().SignedHeader().Raw())
+}
+
 func (tic *TermInCommittee) moveToNextLeaderByElection(height primitives.BlockHeight, view primitives.View, updateMetrics interfaces.OnElectionCallback) {
 
 	currentHV := tic.State.HeightView()
@@ -677,6 +685,11 @@ func (tic *TermInCommittee) HandleViewChange(vcm *interfaces.ViewChangeMessage) 
 
 	if !proofsvalidator.IsInMembers(tic.committeeMembers, vcm.SenderMemberId()) {
 		tic.logger.Info("LHMSG RECEIVED VIEW_CHANGE IGNORE - sender %s is not a member of the committee", Str(vcm.SenderMemberId()))
+		return
+	}
+
+	if !isCanonicalViewChange(vcm) {
+		tic.logger.Info("LHMSG RECEIVED VIEW_CHANGE IGNORE - signed header is not canonically encoded")
 		return
 	}
 
